@@ -59,7 +59,52 @@ class Qual:
             n = ("t", d[0]) if d[1] == "t" else ("s", d[0], d[1])
             if n != dnode:
                 avoid.add(n)
-        return use not in pg.reach_after(dnode, avoid)
+        # boolean flags (`let mut found = false; while !found { .. }`): a walk that carries the flags' known values does
+        # not take an edge that needs the opposite value
+        names = {nm: lo for lo, nm in f.debug_names().items()}
+        flagdefs = {}
+        for nm, lo in names.items():
+            ds = pr.defs.get(lo, [])
+            vals_ = [pr._def(d, 1, (lo,)) for d in ds]
+            if ds and all(re.match(r"^const:(0|1|true|false)$", x) for x in vals_):
+                for d, x in zip(ds, vals_):
+                    flagdefs[("t", d[0]) if d[1] == "t" else ("s", d[0], d[1])] = (nm, x in ("const:1", "const:true"))
+        if not flagdefs:
+            return use not in pg.reach_after(dnode, avoid)
+        flags = {nm for (nm, _) in flagdefs.values()}
+        edge_fact = {}
+        for (e, bb, val, vals) in g._edges():
+            m = re.match(r"^(!?)\(var:(\w+)\)$", g.describe(bb, val, vals) or "")
+            if m and m.group(2) in flags:
+                edge_fact[e] = (m.group(2), m.group(1) == "")
+        init = {}
+        for a_ in g.atoms_at(dnode):
+            m = re.match(r"^(!?)\(var:(\w+)\)$", a_)
+            if m and m.group(2) in flags:
+                init[m.group(2)] = (m.group(1) == "")
+        start = (dnode, tuple(sorted(init.items())))
+        seen_ = {start}
+        work = [start]
+        while work:
+            (n, st) = work.pop()
+            for q in pg.succ.get(n, ()):
+                if q in avoid:
+                    continue
+                fd = dict(st)
+                if q in edge_fact:
+                    nm, v = edge_fact[q]
+                    if nm in fd and fd[nm] != v:
+                        continue
+                    fd[nm] = v
+                if q in flagdefs:
+                    fd[flagdefs[q][0]] = flagdefs[q][1]
+                if q == use:
+                    return False
+                key = (q, tuple(sorted(fd.items())))
+                if key not in seen_:
+                    seen_.add(key)
+                    work.append(key)
+        return True
 
     # -- main ----------------------------------------------------------
     def check(self, f, call, argi, depth=0, seen=(), sent=False):
